@@ -135,8 +135,7 @@ def main():
     for id in ALL:
         if id not in CHECKS:
             m["not_applicable"].append({"property_id": id, "reason": "check not built yet (work in progress; the technique applies, see DESIGN.md §3)"})
-    if not m["not_applicable"]:
-        del m["not_applicable"]
+
     json.dump(m, open(os.path.join(V, "MANIFEST.json"), "w"), indent=1)
     print("wrote MANIFEST.json with", len(m["checks"]), "checks")
 
